@@ -52,8 +52,8 @@ for fname, ff, sup in FILTERS:
         wininv(&precompute_coefficients(%d, %s, %s, %d, %s, %s, true), %d, %d);
         wininv(&precompute_coefficients(%d, %s, %s, %d, %s, %s, false), %d, %d);
     }
-""" % (max(in_size, out) + 9, nm, in_size, in0, in1, out, ff, sup, in_size, out, in_size, in0, in1, out, ff, sup, in_size, out)
-        hs.append(dict(name=nm, kind="bounded", timeout=900, tier="quick" if gname in ("3to2", "4to8", "crop4to2") else "thorough",
+""" % (48 if gname == "5to1" else max(in_size, out) + 9, nm, in_size, in0, in1, out, ff, sup, in_size, out, in_size, in0, in1, out, ff, sup, in_size, out)
+        hs.append(dict(name=nm, kind="bounded", timeout=900, tier="quick",
                        bound="custom filter '%s' (support %s), geometry in_size=%d crop [%s,%s) out_size=%d, adaptive and fixed kernel" % (fname, sup, in_size, in0, in1, out),
                        claim="WinInv: one bound per output pixel, every window inside the line, no longer than window_size, values.len() == window_size*out_size"))
 
